@@ -148,7 +148,11 @@ func (g *GaussianSampler) read(pol Poly, f func(a, b, c uint64) uint64) {
 			}
 
 			for j, qi := range moduli {
-				coeffs[j][i] = f(coeffs[j][i], coeff.Mod(normInt, Qi[j]).Uint64(), qi)
+				c := coeff.Mod(normInt, Qi[j]).Uint64()
+				if g.montgomery {
+					c = MForm(c, qi, r.SubRings[j].BRedConstant)
+				}
+				coeffs[j][i] = f(coeffs[j][i], c, qi)
 			}
 		}
 
@@ -168,13 +172,13 @@ func (g *GaussianSampler) read(pol Poly, f func(a, b, c uint64) uint64) {
 			}
 
 			for j, qi := range moduli {
-				coeffs[j][i] = f(coeffs[j][i], (coeffInt*sign)|(qi-coeffInt)*(sign^1), qi)
+				c := (coeffInt * sign) | (qi-coeffInt)*(sign^1)
+				if g.montgomery {
+					c = MForm(c, qi, r.SubRings[j].BRedConstant)
+				}
+				coeffs[j][i] = f(coeffs[j][i], c, qi)
 			}
 		}
-	}
-
-	if g.montgomery {
-		g.baseRing.MForm(pol, pol)
 	}
 }
 
